@@ -73,3 +73,16 @@ Fixpoint statuses (q : list reply) : list ev :=
   | RStatus e :: r => e :: statuses r
   | REchild :: r => statuses r
   end.
+
+(** the answers the kernel model of Term.v gives ([next_status], K3; ECHILD when
+    every child has been reaped, K4; otherwise the call blocks), for the link
+    between [wait_o] and [Term.settle] in Proofs/WaitTermProofs.v *)
+Fixpoint kreplies (fuel : nat) (ps : list proc) : list reply :=
+  match fuel with
+  | O => []
+  | S f =>
+      match next_status ps with
+      | Some (e, ps') => RStatus e :: kreplies f ps'
+      | None => if all_gone ps then [REchild] else []
+      end
+  end.
